@@ -4,6 +4,8 @@ Line protocol of `Model/TableCellSplit.lean`.
   chain   ::= none | (n…)                         `{a: {b: None}}` ↦ (a b)
   rowskip ::= none | ((index chain)…)
   cellskip <rowskip> index nChildren              → chain            (`cell_skip_stack`)
+  cellresume placed <skip chain> <result chain>    → chain            (`cell_resume_at`)
+  rowresumeraw ((placed <skip chain> <result chain>)…) → rowskip      (`cellResume` per cell, then `rowResume`)
   rowresume (chain…)                              → rowskip          (`resume_at[index_row]`)
 -/
 import WpModel.Model.Wire
@@ -40,6 +42,14 @@ def handle (cmd : String) (args : List Sx) : Option String :=
   match cmd, args with
   | "cellskip", [skip, i, n] => do
     pure (showChain (cellSkip (← rowSkip? skip) (← i.nat?) (← n.nat?)))
+  | "cellresume", [placed, skip, result] => do
+    pure (showChain (cellResume (← placed.bool?) (← chain? skip) (← chain? result)))
+  | "rowresumeraw", [.list rs] => do
+    let one := fun (x : Sx) => match x with
+      | .list [placed, skip, result] => do
+        pure (cellResume (← placed.bool?) (← chain? skip) (← chain? result))
+      | _ => none
+    pure (showRowSkip (rowResume (← allSome one rs)))
   | "rowresume", [.list rs] => do
     pure (showRowSkip (rowResume (← allSome chain? rs)))
   | _, _ => none
